@@ -414,11 +414,11 @@ func checkC06Race(c c06RaceCase) error {
 				}
 				switch c.Skips[i] {
 				case "Skip":
-					Skip(ft, "x")
+					callSkip(func() { Skip(ft, "x") })
 				case "Skipf":
-					Skipf(ft, "x %d", i)
+					callSkip(func() { Skipf(ft, "x %d", i) })
 				case "SkipNow":
-					SkipNow(ft)
+					callSkip(func() { SkipNow(ft) })
 				}
 				ft.finish()
 			}(i, calls)
